@@ -52,11 +52,12 @@ CliStatepoint(p, i) ==
   ELSE LET r == LoadR(o.s, Tmp) IN
        ReadOnly("cli_statepoint", <<p, i>>, CliRes(r.res), IF r.res = "ok" THEN {r.s.h[Tmp].spMem.v} ELSE {})
 
-(* signac statepoint   (no id: every job of the project, in listing order; stops at the first unreadable one) *)
+(* signac statepoint   (no id: every job of the project, in listing order; stops at the first unreadable one).
+   The handles come from iterating the project (Workspace!OpenByIter): the cache FILE is not consulted, every
+   state point file is read and validated. *)
 CliStatepointAll(p) ==
-  LET bad == {i \in Dirs(p) : ~SpOf(p, i).known} IN
-  ReadOnly("cli_statepoint_all", <<p>>, IF bad = {} THEN "ok" ELSE "error",
-           IF bad = {} THEN {SpOf(p, i).v : i \in Dirs(p)} ELSE {})
+  LET bad == {i \in Dirs(p) : ~Valid(p, i)} IN
+  ReadOnly("cli_statepoint_all", <<p>>, IF bad = {} THEN "ok" ELSE "error", IF bad = {} THEN Dirs(p) ELSE {})
 
 (* signac document <id> : evaluating job.document initialises a job whose directory does not exist *)
 CliDocument(p, i) ==
